@@ -1,16 +1,26 @@
 /-
   C12Dist.Attained — ATTAINED: the value of `Cell.Distance` is (within the error) the squared distance to a point of
-  the cell, on its boundary unless the value is the literal `0` of the interior case, PROVIDED the float tests of the
-  branch taken agree with the exact quantities (`ExactOK`; the proviso is necessary: `Counter.lean`).
-  The vertex branch needs no proviso.
+  the cell, on its boundary unless the value is the literal `0` of the interior case.  UNCONDITIONAL after repair D58:
+
+  * edge branches: with the margin `m = 32·dblError` in `uEdgeIsClosest` / `vEdgeIsClosest` a float "yes" implies that
+    the exact tangential quantities are beyond `±(m − 17u) = ±14u` (`Ctx.vClosest_lo` …), in particular they have the
+    right strict signs: the four edge clauses of the former proviso `ExactOK` are THEOREMS (`edge_tests_exact`);
+  * interior branch: the clause "float `inside` ⇒ exact inside" of the former proviso is NOT a theorem (the float sign
+    tests are only within `1.02u` of the exact ones) but it is not needed: the clamp argument
+    (`InsideRobust.inside_point_robust`) gives a point of the cell within `6.12u + (|t|−1)²`;
+  * vertex branch: never needed a proviso.
+
+  For the code BEFORE the repair the edge clauses were necessary and failed: `Counter.lean` (on `OldModel.lean`).
 -/
 import S2Proofs.C12Dist.Lower
+import S2Proofs.C12Dist.InsideRobust
 
 namespace S2Proofs.C12Dist
 open S2 S2.CellM S2Proofs.FloatErr S2Proofs.F64Order S2Proofs.C16Acc
 
-/-- the float decisions that matter for "attained" agree with the exact quantities -/
-def ExactOK (c : Cell) (t : V3) : Prop :=
+/-- the four edge clauses of the former proviso `ExactOK`: for each float edge condition that is true the two exact
+    tangential quantities have the right strict signs -/
+def EdgeTestsExact (c : Cell) (t : V3) : Prop :=
   ((F64.lt (dirs c t).dir00 fzero && vEdgeIsClosest c t false) = true →
       0 < vTan (rectOf c).u0 (rectOf c).v0 (ofV t) ∧ vTan (rectOf c).u0 (rectOf c).v1 (ofV t) < 0) ∧
   ((F64.gt (dirs c t).dir01 fzero && vEdgeIsClosest c t true) = true →
@@ -18,8 +28,32 @@ def ExactOK (c : Cell) (t : V3) : Prop :=
   ((F64.lt (dirs c t).dir10 fzero && uEdgeIsClosest c t false) = true →
       0 < uTan (rectOf c).v0 (rectOf c).u0 (ofV t) ∧ uTan (rectOf c).v0 (rectOf c).u1 (ofV t) < 0) ∧
   ((F64.gt (dirs c t).dir11 fzero && uEdgeIsClosest c t true) = true →
-      0 < uTan (rectOf c).v1 (rectOf c).u0 (ofV t) ∧ uTan (rectOf c).v1 (rectOf c).u1 (ofV t) < 0) ∧
-  ((dirs c t).inside = true → ExInside (rectOf c) (ofV t))
+      0 < uTan (rectOf c).v1 (rectOf c).u0 (ofV t) ∧ uTan (rectOf c).v1 (rectOf c).u1 (ofV t) < 0)
+
+/-- the interior clause of the former proviso (float `inside` ⇒ exact inside).  NOT a theorem, and no longer a
+    hypothesis of anything: kept to state precisely what `ExactOK` consisted of. -/
+def InsideExact (c : Cell) (t : V3) : Prop := (dirs c t).inside = true → ExInside (rectOf c) (ofV t)
+
+/-- the former proviso of ATTAINED (package c12dist) = edge clauses ∧ interior clause -/
+def ExactOK (c : Cell) (t : V3) : Prop := EdgeTestsExact c t ∧ InsideExact c t
+
+/-- **after repair D58 the edge clauses hold for every cell and target of the context**: a float "yes" of a tangential
+    test with margin means the exact quantity is beyond `14·u` on the right side -/
+theorem edge_tests_exact {c : Cell} {t : V3} (X : Ctx c t) : EdgeTestsExact c t := by
+  have hu := uR_pos
+  refine ⟨fun h => ?_, fun h => ?_, fun h => ?_, fun h => ?_⟩
+  · rw [Bool.and_eq_true] at h
+    obtain ⟨h1, h2⟩ := X.vClosest_lo.1 h.2
+    exact ⟨by linarith, by linarith⟩
+  · rw [Bool.and_eq_true] at h
+    obtain ⟨h1, h2⟩ := X.vClosest_hi.1 h.2
+    exact ⟨by linarith, by linarith⟩
+  · rw [Bool.and_eq_true] at h
+    obtain ⟨h1, h2⟩ := X.uClosest_lo.1 h.2
+    exact ⟨by linarith, by linarith⟩
+  · rw [Bool.and_eq_true] at h
+    obtain ⟨h1, h2⟩ := X.uClosest_hi.1 h.2
+    exact ⟨by linarith, by linarith⟩
 
 namespace Attained
 
@@ -48,10 +82,10 @@ theorem edge_close {x d e E m n2 : ℝ} (h : |x - e| ≤ E) (hd : d = e) (he : e
   linarith
 
 /-- pure real: the end of the interior branch -/
-theorem inside_close {d m E V : ℝ} (hd : d = m) (hm : 0 ≤ m) (hV : 0 ≤ V) :
+theorem inside_close {d m δ E V : ℝ} (hd0 : 0 ≤ d) (hd : d ≤ m + δ) (hδ : δ ≤ V) :
     |(0 : ℝ) - min 4 d| ≤ max E V + m := by
-  have h1 : 0 ≤ min 4 d := le_min (by norm_num) (by rw [hd]; exact hm)
-  have h2 : min 4 d ≤ m := by rw [← hd]; exact min_le_right _ _
+  have h1 : 0 ≤ min 4 d := le_min (by norm_num) hd0
+  have h2 : min 4 d ≤ d := min_le_right _ _
   have h3 := le_max_right E V
   rw [zero_sub, abs_neg, abs_of_nonneg h1]
   linarith
@@ -94,12 +128,11 @@ theorem vertex_branch_attained {c : Cell} {t : V3} (X : Ctx c t) :
   · exact ⟨_, vhat_onBoundary _ hr _ _ (Or.inl rfl) hv1, e01⟩
   · exact ⟨_, vhat_onBoundary _ hr _ _ (Or.inr rfl) hv1, e11⟩
 
-/-- **ATTAINED, face frame.** -/
-theorem distUVW_attained {eE : ℝ} (HE : EdgeSpec eE) {c : Cell} {t : V3} (X : Ctx c t) (hpos : 0 < (ofV t).norm2)
-    (hex : ExactOK c t) :
+/-- **ATTAINED, face frame — no proviso.** -/
+theorem distUVW_attained {eE : ℝ} (HE : EdgeSpec eE) {c : Cell} {t : V3} (X : Ctx c t) (bl : 1 / 2 ≤ (ofV t).norm2) :
     ∃ q : R3, InCell (rectOf c) q ∧ (OnBoundary (rectOf c) q ∨ distUVW c t = fzero) ∧
       |val (distUVW c t) - min 4 (dist2 (ofV t) q)| ≤ max (eE + 27 * uR) vertErr + ((ofV t).norm - 1) ^ 2 := by
-  obtain ⟨xL, xR, xB, xT, xI⟩ := hex
+  obtain ⟨xL, xR, xB, xT⟩ := edge_tests_exact X
   have hm : 0 ≤ ((ofV t).norm - 1) ^ 2 := sq_nonneg _
   unfold distUVW
   simp only
@@ -134,10 +167,21 @@ theorem distUVW_attained {eE : ℝ} (HE : EdgeSpec eE) {c : Cell} {t : V3} (X : 
   rw [if_neg cT]
   by_cases cI : (dirs c t).inside = true
   · rw [if_pos cI]
-    obtain ⟨q, hq, hd⟩ := inside_point (rectOf c) X.ok (ofV t) (xI cI) hpos
+    -- float `inside`: none of the four float sign tests fired; the exact quantities are within 1.02·u
+    unfold Dirs.inside at cI
+    simp only [Bool.and_eq_true, Bool.not_eq_true'] at cI
+    obtain ⟨⟨⟨n1, n2⟩, n3⟩, n4⟩ := cI
+    have hu := uR_nonneg
+    have hus := uR_small
+    obtain ⟨q, hq, hd0, hd⟩ := inside_point_robust (rectOf c) X.ok X.gu (ofV t) ((102 / 100) * uR)
+      (by linarith) (by unfold uR; norm_num)
+      (by have := X.signL.2 n1; linarith) (X.signR.2 n2) (by have := X.signB.2 n3; linarith) (X.signT.2 n4)
+      bl (by have := X.bn; have : (1 : ℝ) + 1 / 2 ^ 21 ≤ 2 := by norm_num
+             linarith)
     refine ⟨q, hq, Or.inr rfl, ?_⟩
     rw [val_fzero]
-    exact inside_close hd hm vertErr_nonneg
+    refine inside_close (δ := 6 * ((102 / 100) * uR)) hd0 (by linarith) ?_
+    unfold vertErr; linarith
   rw [if_neg cI]
   obtain ⟨q, hb, he⟩ := vertex_branch_attained X
   refine ⟨q, hb.1, Or.inl hb, ?_⟩
